@@ -75,11 +75,15 @@ func (c *FnCtx) doCall(res *ssa.Call, cc *ssa.CallCommon, site ssa.Instruction) 
 	} else {
 		resTy = cc.Signature().Results()
 	}
-	var afterKey string
+	var afterKey, lastRetKey string
 	var afterArgs []Val
 	setRes := func(vs []Val) {
 		if afterKey != "" {
 			c.afterCallAnchor(afterKey, afterArgs, vs)
+		}
+		if lastRetKey != "" && len(vs) > 0 && c.watch[lastRetKey] {
+			// ghost: first result of the most recent call to this callee on the current path
+			c.setGhost(lastRetKey, vs[0])
 		}
 		if res == nil {
 			return
@@ -131,6 +135,7 @@ func (c *FnCtx) doCall(res *ssa.Call, cc *ssa.CallCommon, site ssa.Instruction) 
 	if name != "" {
 		afterKey = fmt.Sprintf("after call %s#%d", shortName(name), ord)
 		afterArgs = args
+		lastRetKey = "lastret " + normAnchor(shortName(name))
 	}
 
 	// trivial field-address accessors (e.g. func (rr *OPT) Header() *RR_Header { return &rr.Hdr }) are inlined
@@ -257,6 +262,12 @@ func (c *FnCtx) applyContract(fc *FuncContract, fn *ssa.Function, cc *ssa.CallCo
 		}
 	}
 	for k, cl := range fc.Requires {
+		if c.fc != nil && c.fc.NoSafety["pre"] {
+			// abstracting tier: the callee's precondition is assumed, and listed
+			c.used["ASSUMED in "+shortName(c.fn.String())+" (nosafety pre): precondition of "+shortName(name)+": "+cl.Text] = true
+			c.assume(c.trClause(env, cl))
+			continue
+		}
 		c.checkClause(fmt.Sprintf("pre:%s#%d:%d", shortName(name), ord, k+1), "precondition of "+shortName(name)+": "+cl.Text, c.reach, env, cl)
 	}
 	// frame
@@ -303,6 +314,13 @@ func (c *FnCtx) applyContract(fc *FuncContract, fn *ssa.Function, cc *ssa.CallCo
 		}
 	}
 	for _, cl := range fc.Ensures {
+		// effect clauses (calls()/lastret()) describe the callee's own execution; they are proved on the callee
+		// and are not exported to callers, whose ghost counters are a different namespace
+		w := map[string]bool{}
+		collectWatches(cl.E, w)
+		if len(w) > 0 {
+			continue
+		}
 		c.assume(c.trClause(post, cl))
 	}
 	return out
@@ -832,6 +850,9 @@ func (c *FnCtx) canInline(fn *ssa.Function) bool {
 				}
 				if _, noop := isNoopCallee(callee.String()); noop {
 					continue
+				}
+				if _, isAtomic := atomicKind(callee.String()); isAtomic {
+					continue // modelled precisely by atomicCall
 				}
 				if c.g.cs.Funcs[callee.String()] != nil {
 					return false
